@@ -9,7 +9,8 @@ What is translated, from the *current* source text, on every run:
     areInlineIfCompatible, getInlineIfCommonType, isParameterCompatible                (clause by clause, same order)
   * the `case` groups of TypeChecker::checkExpression for the arithmetic / relational / logical operators,
     NOT, UNARY_MINUS, RATE, INLINE_IF and the quantifiers FORALL / EXISTS / SUM
-  * the acceptance tests of guards (visitEdge) and invariants (visitLocation).
+  * the acceptance tests of guards (visitEdge) and invariants (visitLocation);
+  * the two tests of TypeChecker::checkObservationConstraints on the comparisons of a `{ observations } control:` query.
 
 The translator contains a small C++ expression/statement parser.  It FAILS CLOSED: a statement, method, kind of
 expression or shape it does not know raises TranslateError (the check then reports the tie as broken); nothing is
@@ -982,6 +983,120 @@ def translate(repo="/repo", verif=None):
 
     acceptance("visitEdge", ["edge", ".", "guard"], "guardAccepted", "$cannot_be_used_as_a_guard")
     acceptance("visitLocation", ["loc", ".", "invariant"], "invariantAccepted", "$cannot_be_used_as_an_invariant")
+
+    # 6. the comparisons a `{ observations } control: goal` query may contain (visitProperty -> checkObservationConstraints)
+    out.append("/-! ### `TypeChecker::checkObservationConstraints`: which comparisons of a partially observable game query are rejected -/")
+    _, ob = find_function(tc, "checkObservationConstraints", "TypeChecker")
+    ovals = [v for _, v in ob]
+    pro = " ".join(ovals[1:ovals.index("bool")])
+    if pro != "for ( size_t i = 0 ; i < expr . get_size ( ) ; ++ i ) { checkObservationConstraints ( expr [ i ] ) ; }":
+        raise TranslateError("checkObservationConstraints: prologue changed: %r" % pro)
+    sws = [q for q in range(len(ovals) - 9) if ovals[q:q + 9] == ["switch", "(", "expr", ".", "get_kind", "(", ")", ")", "{"]]
+    if len(sws) != 2 or " ".join(ovals[ovals.index("bool"):sws[0]]) != "bool invalid = false ;":
+        raise TranslateError("checkObservationConstraints: expected `bool invalid = false;` and two switches on expr.get_kind()")
+
+    def switch_items(lo, hi, where):
+        """the body of a switch as a flat list: ("label", NAME) | ("break",) | ("stmt", parsed statement)"""
+        items, q = [], lo
+        while q < hi:
+            v = ob[q][1]
+            if v == "case":
+                r_ = q + 1
+                while ob[r_][1] != ":":
+                    r_ += 1
+                items.append(("label", ob[r_ - 1][1]))
+                q = r_ + 1
+            elif v == "default":
+                if ob[q + 1][1] != ":":
+                    raise TranslateError("%s: default without `:`" % where)
+                items.append(("label", "default"))
+                q += 2
+            elif v == "[[":
+                if [x for _, x in ob[q:q + 4]] != ["[[", "fallthrough", "]]", ";"]:
+                    raise TranslateError("%s: unknown attribute" % where)
+                q += 4
+            elif v == "break":
+                items.append(("break",))
+                q += 2
+            elif v == ";":
+                q += 1
+            else:
+                # one statement: `if (..) { .. }` or everything up to the next `;` outside brackets
+                if v == "if":
+                    r_ = find_matching(ob, q + 1, "(", ")") + 1
+                    if ob[r_][1] != "{":
+                        raise TranslateError("%s: if without a block" % where)
+                    r_ = find_matching(ob, r_, "{", "}")
+                else:
+                    depth, r_ = 0, q
+                    while r_ < hi and not (depth == 0 and ob[r_][1] == ";"):
+                        depth += {"(": 1, "[": 1, "{": 1, ")": -1, "]": -1, "}": -1}.get(ob[r_][1], 0)
+                        r_ += 1
+                items.append(("stmt", Parser(ob[q:r_ + 1], where).stmt()))
+                q = r_ + 1
+        return items
+
+    def runs(items, where):
+        """label -> the statements executed from that label to the next `break` (fall-through included), in order"""
+        out_ = {}
+        for n, it in enumerate(items):
+            if it[0] != "label":
+                continue
+            seq = []
+            for jt in items[n + 1:]:
+                if jt[0] == "break":
+                    break
+                if jt[0] == "stmt":
+                    seq.append(jt[1])
+            if it[1] in out_:
+                raise TranslateError("%s: label %s twice" % (where, it[1]))
+            out_[it[1]] = seq
+        return out_
+
+    e1 = find_matching(ob, sws[0] + 8, "{", "}")
+    r1 = runs(switch_items(sws[0] + 9, e1, "checkObservationConstraints/1"), "checkObservationConstraints/1")
+    oenv = {"expr": ("exprs", "expr"), "invalid": ("bool", "invalid")}
+    arms = []
+    for lab, seq in r1.items():
+        lines_ = ["      let invalid := false"]
+        for st in seq:
+            if not (st[0] == "expr" and st[1][0] == "assign" and st[1][1] == "=" and st[1][2] == ("id", "invalid", ())):
+                raise TranslateError("checkObservationConstraints: case %s does something else than assigning `invalid`: %r" % (lab, st[:2]))
+            lines_.append("      let invalid := %s" % em.ex(st[1][3], oenv, "checkObservationConstraints case " + lab))
+        if lab == "default":
+            if len(lines_) > 1:
+                raise TranslateError("checkObservationConstraints: the default case assigns")
+            continue
+        if lab not in bin_ops:
+            raise TranslateError("checkObservationConstraints: case %s is not a binary operator of checkExpression" % lab)
+        arms.append("  | .%s =>\n%s\n      invalid" % (lab, "\n".join(lines_)))
+    out.append("/-- first test: `invalid` at the end of the switch = $Clock_lower_bound_must_be_weak_and_upper_bound_strict is reported\n"
+               "    for the comparison `k` of operands of types t0, t1 (statements in source order, fall-through included) -/\n"
+               "def obsInvalid (k : BinOp) (t0 t1 : Ty) : Bool :=\n  match k with\n%s\n  | _ => false\n" % "\n".join(arms))
+    # between the switches:  if (invalid) { handleError(..) } else { switch ... }
+    mid = " ".join(ovals[e1 + 1:sws[1]])
+    if not re.fullmatch(r'if \( invalid \) \{ handleError \( expr , "[^"]*" \) ; \} else \{', mid):
+        raise TranslateError("checkObservationConstraints: code between the two switches changed: %r" % mid)
+    e2 = find_matching(ob, sws[1] + 8, "{", "}")
+    if " ".join(ovals[e2 + 1:]) != "} }":
+        raise TranslateError("checkObservationConstraints: epilogue changed: %r" % " ".join(ovals[e2 + 1:]))
+    r2 = runs(switch_items(sws[1] + 9, e2, "checkObservationConstraints/2"), "checkObservationConstraints/2")
+    arms = []
+    for lab, seq in r2.items():
+        if lab == "default":
+            if seq:
+                raise TranslateError("checkObservationConstraints: the default case of the second switch does something")
+            continue
+        ok_ = (len(seq) == 1 and seq[0][0] == "if" and seq[0][3] is None and len(flatten(seq[0][2])) == 1
+               and flatten(seq[0][2])[0][0] == "expr" and "handleError" in repr(flatten(seq[0][2])[0]))
+        if not ok_ or lab not in bin_ops:
+            raise TranslateError("checkObservationConstraints: second switch, case %s: expected `if (C) handleError(..)`" % lab)
+        arms.append("  | .%s => %s" % (lab, em.ex(seq[0][1], oenv, "checkObservationConstraints/2 case " + lab)))
+    out.append("/-- second test (made when the first one does not fire): $Clock_differences_are_not_supported -/\n"
+               "def obsDifference (k : BinOp) (t0 t1 : Ty) : Bool :=\n  match k with\n%s\n  | _ => false\n" % "\n".join(arms))
+    out.append("/-- the comparison is rejected as an observation -/\n"
+               "def obsRejected (k : BinOp) (t0 t1 : Ty) : Bool := obsInvalid k t0 t1 || obsDifference k t0 t1\n")
+    info["observation_cases"] = sorted(r1)
 
     names = (["ty_" + n for n in info["type_predicates"]] + ["h_" + n for n in info["helpers"]])
     cases = (["typeBin", "typeUn", "typeQuant", "finish"] + ["binCase_" + labs[0] for labs, _ in bin_defs]
